@@ -106,7 +106,7 @@ def worker(args):
                 stats["status"][res["status"]] = stats["status"].get(res["status"], 0) + 1
                 if res["status"] in ("budget", "timeout", "engine_error", "badcase", "stuck") and not v:
                     stats["inconclusive"] += 1
-                    if res["status"] in ("badcase", "engine_error") and len(stats["errors"]) < 5:
+                    if res["status"] in ("badcase", "engine_error", "timeout") and len(stats["errors"]) < 5:
                         stats["errors"].append(res["status"] + ": " + res["msg"][:200] + " | " + text[:300])
                 for c in classes:
                     stats["classes"][c] = stats["classes"].get(c, 0) + 1
